@@ -237,6 +237,11 @@ func provenance(p *Program, v ssa.Value, depth int) (decodeSource, bool) {
 		if fn.Parent() != nil {
 			return decodeSource{nil, "parameter of a callback (" + fnKey(fn) + ")"}, true
 		}
+		// a method handed over as a method value and never called directly
+		// is a callback like a function literal
+		if len(callSitesOf(p, fn)) == 0 && usedAsMethodValue(fn) {
+			return decodeSource{nil, "parameter of a callback (" + fnKey(fn) + ")"}, true
+		}
 		idx := -1
 		for i, q := range fn.Params {
 			if q == x {
@@ -668,4 +673,20 @@ func transitiveDeps(fn *ssa.Function, pd map[*ssa.BasicBlock]map[*ssa.BasicBlock
 		}
 	}
 	return deps
+}
+
+// usedAsMethodValue: some bound-method wrapper made in the module calls fn.
+func usedAsMethodValue(fn *ssa.Function) bool {
+	for wrapper := range world().boundAt {
+		found := false
+		allInstrs(wrapper, func(i ssa.Instruction) {
+			if call, ok := i.(ssa.CallInstruction); ok && staticCallee(call) == fn {
+				found = true
+			}
+		})
+		if found {
+			return true
+		}
+	}
+	return false
 }
